@@ -1,6 +1,7 @@
 package verifsim
 
 import (
+	"encoding/json"
 	"time"
 	"context"
 	"fmt"
@@ -98,6 +99,7 @@ var c07IndexPool = []c07Index{
 	{"ix_born_desc", []client.IndexedFieldDescription{{Name: "born", Descending: true}}, false},
 	{"ix_age_tags", []client.IndexedFieldDescription{{Name: "age"}, {Name: "tags"}}, false},
 	{"ix_active_name", []client.IndexedFieldDescription{{Name: "active"}, {Name: "name", Descending: true}}, false},
+	{"ux_nums", []client.IndexedFieldDescription{{Name: "nums"}}, true},
 }
 
 func (e5Engine) Gen(prop string, seed int64, tier string) *Plan {
@@ -122,6 +124,14 @@ func (e5Engine) Gen(prop string, seed int64, tier string) *Plan {
 		mask &^= 1<<9 | 1<<10
 		if mask == 0 {
 			mask = 1 << r.IntN(9)
+		}
+	}
+	if rx := newRng(seed, 71); chance(rx, 20) {
+		// a unique index on an array field (own stream of choices)
+		for k, ixd := range c07IndexPool {
+			if ixd.name == "ux_nums" {
+				mask |= 1 << uint(k)
+			}
 		}
 	}
 	p.Cfg["ixmask"] = mask
@@ -325,6 +335,45 @@ func (r *c07Run) uniqueConflict(id string, vals map[string]string) (bool, bool) 
 		if !ixd.unique || !r.active[ixd.name] {
 			continue
 		}
+		if fd := c07FieldByName(ixd.fields[0].Name); len(ixd.fields) == 1 && fd != nil && (fd.kind == "intarr" || fd.kind == "strarr") {
+			// a unique index on an array: every element is unique among the live documents
+			elems := func(v string) ([]string, bool) {
+				var xs []any
+				if v == "" || v == "null" || json.Unmarshal([]byte(v), &xs) != nil {
+					return nil, false
+				}
+				var out []string
+				dup := false
+				for _, x := range xs {
+					e := canon(x)
+					for _, o := range out {
+						if o == e {
+							dup = true
+						}
+					}
+					out = append(out, e)
+				}
+				return out, dup
+			}
+			mine, dup := elems(vals[fd.name])
+			if dup {
+				return false, true // the same element twice in one document: either outcome is accepted
+			}
+			for oid, ov := range r.model {
+				if oid == id {
+					continue
+				}
+				theirs, _ := elems(ov[fd.name])
+				for _, a := range mine {
+					for _, b := range theirs {
+						if a == b && a != "null" {
+							return true, false
+						}
+					}
+				}
+			}
+			continue
+		}
 		tuple := func(m map[string]string) (string, bool) {
 			var parts []string
 			for _, f := range ixd.fields {
@@ -395,14 +444,14 @@ func (r *c07Run) exec(i int, s Step) {
 		}
 		parts = append(parts, fmt.Sprintf(`"born": %s`, vals["born"]))
 		js := "{" + strings.Join(dedupParts(parts), ", ") + "}"
-		conflict, _ := r.uniqueConflict("", vals)
+		conflict, undet := r.uniqueConflict("", vals)
 		id, err := r.colCreate(r.ix, js)
 		if err != nil {
 			if strings.Contains(err.Error(), "already exists") {
 				return // identical document: not a new document
 			}
 			if isUniqueErrStr(err.Error()) {
-				if !conflict {
+				if !conflict && !undet {
 					r.res.violate("C07", "unique-spurious-reject", "create", i, "create %s rejected (%v) although no live document holds the value", js, err)
 				}
 				r.res.Stats["unique_rejects"]++
@@ -428,16 +477,19 @@ func (r *c07Run) exec(i int, s Step) {
 		}
 		id := ids[mod(s.A, len(ids))]
 		f := c07Fields[mod(s.B, len(c07Fields))]
+		if r.active["ux_nums"] && mod(s.D, 2) == 0 {
+			f = *c07FieldByName("nums") // a unique array index: half of the updates rewrite the array
+		}
 		lit := f.gql[mod(s.C, len(f.gql))]
 		nv := copyStrMap(r.model[id])
 		nv[f.name] = gqlToJSON(lit)
-		conflict, _ := r.uniqueConflict(id, nv)
+		conflict, undet := r.uniqueConflict(id, nv)
 		q := fmt.Sprintf(`mutation { update_User(docID: %q, input: {%s: %s}) { _docID } }`, id, f.name, lit)
 		_, errs := r.ix.GQL(q)
 		if len(errs) > 0 {
 			e := strings.Join(errs, ";")
 			if isUniqueErrStr(e) {
-				if !conflict {
+				if !conflict && !undet {
 					r.res.violate("C07", "unique-spurious-reject", "update", i, "%s rejected (%s) although no other live document holds the value", q, e)
 				}
 				r.res.Stats["unique_rejects"]++
@@ -580,7 +632,7 @@ func (r *c07Run) remote(i int, s Step) {
 	case s.A == 0 || len(r.remoteDocs) == 0:
 		// remote documents use a value range of their own for the fields that may carry a unique index
 		k := len(r.remoteDocs)
-		js := fmt.Sprintf(`{"name": "remote%d", "age": %d, "score": %d.5, "tags": ["r"], "nums": [%d], "points": 2, "active": true}`, k, 5000+k, k, k)
+		js := fmt.Sprintf(`{"name": "remote%d", "age": %d, "score": %d.5, "tags": ["r"], "nums": [%d], "points": 2, "active": true}`, k, 5000+k, k, 7000+k)
 		id, err := r.colCreate(rm, js)
 		if err != nil {
 			r.res.HarnessErr = "remote create: " + err.Error()
@@ -591,7 +643,7 @@ func (r *c07Run) remote(i int, s Step) {
 	case s.A == 1:
 		docID = r.remoteDocs[mod(s.C, len(r.remoteDocs))]
 		f := c07Fields[mod(s.D, len(c07Fields))]
-		if f.name == "age" || f.name == "name" {
+		if f.name == "age" || f.name == "name" || f.name == "nums" {
 			f = *c07FieldByName("score")
 		}
 		lit := f.gql[mod(s.B, len(f.gql))]
@@ -765,10 +817,32 @@ func (r *c07Run) check(i int, seed int) {
 	// tuple of the first two fields of a composite index together
 	if len(r.res.Viols) == 0 {
 		ids := r.liveIDs()
-		for k := 0; k < 3 && k < len(ids) && len(r.res.Viols) == 0; k++ {
+		nLook := 3
+		if r.active["ux_nums"] || r.active["ix_nums"] || r.active["ix_tags"] {
+			nLook = len(ids) // an array index: every live document's elements are looked up
+		}
+		for k := 0; k < nLook && k < len(ids) && len(r.res.Viols) == 0; k++ {
 			doc := r.model[ids[mod(r.next(), len(ids))]]
+			if nLook == len(ids) {
+				doc = r.model[ids[k]]
+			}
 			for _, ixd := range c07IndexPool {
 				if !r.active[ixd.name] || len(r.res.Viols) > 0 {
+					continue
+				}
+				if fd := c07FieldByName(ixd.fields[0].Name); len(ixd.fields) == 1 && fd != nil && (fd.kind == "intarr" || fd.kind == "strarr") {
+					// an index on an array: look every element up that the document holds
+					var xs []any
+					if json.Unmarshal([]byte(doc[fd.name]), &xs) == nil {
+						for _, x := range xs {
+							if x == nil || len(r.res.Viols) > 0 {
+								continue
+							}
+							r.parts = nil
+							q := fmt.Sprintf("query { User(filter: {%s: {_any: {_eq: %s}}}) { _docID name %s } }", fd.name, canon(x), fd.name)
+							r.compare(i, q, "User", "", "point-lookup/"+fd.kind+":_any:_eq")
+						}
+					}
 					continue
 				}
 				var conds, tags []string
